@@ -196,10 +196,33 @@ type c19Expect struct {
 
 // build renders the workflow and computes the expected reports from the reference model.
 func (c *c19Case) build() (string, *c19Expect) {
+	return c19BuildJobs([]*c19Case{c}, c.Indent)
+}
+
+// c19BuildJobs renders one workflow with one job per case (jobs are independent of each other, so
+// the expected reports are the union of the per-job expectations).
+func c19BuildJobs(cs []*c19Case, indent int) (string, *c19Expect) {
 	exp := &c19Expect{dupAt: map[string]bool{}, exclKeyAt: map[string]bool{}, exclValAt: map[string]bool{}}
 	root := ye.M()
 	root.Set("on", ye.S("push"))
 	jobs := ye.M()
+	var fills []func(*c19Expect)
+	for i, c := range cs {
+		job, fill := c.job()
+		jobs.Set(string(rune('a'+i)), job)
+		fills = append(fills, fill)
+	}
+	root.Set("jobs", jobs)
+	src := ye.Emit(root, ye.Layout{Indent: indent})
+	for _, f := range fills {
+		f(exp)
+	}
+	return src, exp
+}
+
+// job builds the job node of one matrix and returns the function computing the expected reports
+// from the reference model once positions are known.
+func (c *c19Case) job() (*ye.Node, func(exp *c19Expect)) {
 	job := ye.M()
 	strat := ye.M()
 	matrix := ye.M()
@@ -265,90 +288,88 @@ func (c *c19Case) build() (string, *c19Expect) {
 	job.Set("strategy", strat)
 	job.Set("runs-on", ye.S("ubuntu-latest"))
 	job.Set("steps", ye.L(ye.M().Set("run", ye.S("echo"))))
-	jobs.Set("a", job)
-	root.Set("jobs", jobs)
-	src := ye.Emit(root, ye.Layout{Indent: c.Indent})
-	at := func(n *ye.Node) string { return fmt.Sprintf("%d:%d", n.Line, n.Col) }
-	// duplicates
-	for _, rn := range rns {
-		for i := range rn.nodes {
-			for j := 0; j < i; j++ {
-				a, b := rn.row.Values[j], rn.row.Values[i]
-				if mEqual(a, b) {
-					exp.dupAt[at(rn.nodes[i])] = true
-					exp.nontrivial = true
-					exp.classes = append(exp.classes, "duplicate/"+b.kind())
-					break
-				}
-				if a.kind() == b.kind() && a.kind() != "scalar" && (mContains(a, b) || mContains(b, a)) {
-					exp.nontrivial = true
-					exp.classes = append(exp.classes, "subset-related-not-equal/"+b.kind())
-				}
-			}
-		}
-	}
-	// exclude
-	includeHasExpr := c.IncludeExpr != ""
-	for _, e := range c.Include {
-		if e.Expr != "" {
-			includeHasExpr = true
-		}
-	}
-	if len(exKeys) > 0 && !includeHasExpr {
-		cands := map[string][]*mval{}
-		ignored := map[string]bool{}
-		for _, r := range c.Rows {
-			if r.Expr != "" {
-				ignored[r.Key] = true
-				continue
-			}
-			cands[r.Key] = append(cands[r.Key], r.Values...)
-		}
-		for _, e := range c.Include {
-			for i, k := range e.Keys {
-				if !ignored[k] {
-					cands[k] = append(cands[k], e.Vals[i])
-				}
-			}
-		}
-		for ei, e := range c.Exclude {
-			if e.Expr != "" {
-				continue
-			}
-			exp.nontrivial = true
-			for i, k := range e.Keys {
-				if ignored[k] {
-					exp.classes = append(exp.classes, "exclude/key-of-expression-row")
-					continue
-				}
-				cs, ok := cands[k]
-				if !ok {
-					exp.exclKeyAt[at(exKeys[ei][i])] = true
-					exp.classes = append(exp.classes, "exclude/unknown-key")
-					continue
-				}
-				matched := false
-				for _, cv := range cs {
-					if mContains(cv, e.Vals[i]) {
-						matched = true
-						if !mEqual(cv, e.Vals[i]) && !cv.hasExprAnywhere() && !e.Vals[i].hasExprAnywhere() {
-							exp.classes = append(exp.classes, "exclude/proper-subset-match")
-						}
+	return job, func(exp *c19Expect) {
+		at := func(n *ye.Node) string { return fmt.Sprintf("%d:%d", n.Line, n.Col) }
+		// duplicates
+		for _, rn := range rns {
+			for i := range rn.nodes {
+				for j := 0; j < i; j++ {
+					a, b := rn.row.Values[j], rn.row.Values[i]
+					if mEqual(a, b) {
+						exp.dupAt[at(rn.nodes[i])] = true
+						exp.nontrivial = true
+						exp.classes = append(exp.classes, "duplicate/"+b.kind())
 						break
 					}
-				}
-				if !matched {
-					exp.exclValAt[at(exVals[ei][i])] = true
-					exp.classes = append(exp.classes, "exclude/no-candidate-contains/"+e.Vals[i].kind())
-				} else {
-					exp.classes = append(exp.classes, "exclude/matched/"+e.Vals[i].kind())
+					if a.kind() == b.kind() && a.kind() != "scalar" && (mContains(a, b) || mContains(b, a)) {
+						exp.nontrivial = true
+						exp.classes = append(exp.classes, "subset-related-not-equal/"+b.kind())
+					}
 				}
 			}
 		}
-	} else if includeHasExpr && len(c.Exclude) > 0 {
-		exp.classes = append(exp.classes, "exclude/skipped-include-has-expression")
+		// exclude
+		includeHasExpr := c.IncludeExpr != ""
+		for _, e := range c.Include {
+			if e.Expr != "" {
+				includeHasExpr = true
+			}
+		}
+		if len(exKeys) > 0 && !includeHasExpr {
+			cands := map[string][]*mval{}
+			ignored := map[string]bool{}
+			for _, r := range c.Rows {
+				if r.Expr != "" {
+					ignored[r.Key] = true
+					continue
+				}
+				cands[r.Key] = append(cands[r.Key], r.Values...)
+			}
+			for _, e := range c.Include {
+				for i, k := range e.Keys {
+					if !ignored[k] {
+						cands[k] = append(cands[k], e.Vals[i])
+					}
+				}
+			}
+			for ei, e := range c.Exclude {
+				if e.Expr != "" {
+					continue
+				}
+				exp.nontrivial = true
+				for i, k := range e.Keys {
+					if ignored[k] {
+						exp.classes = append(exp.classes, "exclude/key-of-expression-row")
+						continue
+					}
+					cs, ok := cands[k]
+					if !ok {
+						exp.exclKeyAt[at(exKeys[ei][i])] = true
+						exp.classes = append(exp.classes, "exclude/unknown-key")
+						continue
+					}
+					matched := false
+					for _, cv := range cs {
+						if mContains(cv, e.Vals[i]) {
+							matched = true
+							if !mEqual(cv, e.Vals[i]) && !cv.hasExprAnywhere() && !e.Vals[i].hasExprAnywhere() {
+								exp.classes = append(exp.classes, "exclude/proper-subset-match")
+							}
+							break
+						}
+					}
+					if !matched {
+						exp.exclValAt[at(exVals[ei][i])] = true
+						exp.classes = append(exp.classes, "exclude/no-candidate-contains/"+e.Vals[i].kind())
+					} else {
+						exp.classes = append(exp.classes, "exclude/matched/"+e.Vals[i].kind())
+					}
+				}
+			}
+		} else if includeHasExpr && len(c.Exclude) > 0 {
+			exp.classes = append(exp.classes, "exclude/skipped-include-has-expression")
+		}
 	}
-	return src, exp
 }
 
 type c19Got struct {
@@ -392,14 +413,38 @@ func setDiff(a, b map[string]bool) []string {
 	return out
 }
 
+// checkJobs: several matrices as jobs of one workflow; every job is checked on its own.
+func checkJobs(cs []*c19Case) (key, msg string, exp *c19Expect) {
+	src, exp := c19BuildJobs(cs, cs[0].Indent)
+	k, m := c19Compare(src, exp)
+	if k != "" && !strings.HasPrefix(k, "harness/") {
+		// does each matrix alone behave? then the defect is an interaction between jobs
+		alone := true
+		for _, c := range cs {
+			if k1, _, _ := checkMatrix(c); k1 != "" {
+				alone = false
+			}
+		}
+		if alone {
+			k += "(only-next-to-other-jobs)"
+		}
+	}
+	return k, m, exp
+}
+
 func checkMatrix(c *c19Case) (key, msg string, exp *c19Expect) {
 	src, exp := c.build()
+	k, m := c19Compare(src, exp)
+	return k, m, exp
+}
+
+func c19Compare(src string, exp *c19Expect) (key, msg string) {
 	got, k, m := c19Lint(src)
 	if k != "" {
-		return k, m, exp
+		return k, m
 	}
 	if len(got.other) > 0 {
-		return "harness/c19-unexpected-diagnostic", fmt.Sprintf("%v\n%s", got.other, src), exp
+		return "harness/c19-unexpected-diagnostic", fmt.Sprintf("%v\n%s", got.other, src)
 	}
 	cmp := func(name string, want, have map[string]bool) (string, string) {
 		if miss := setDiff(want, have); len(miss) > 0 {
@@ -414,15 +459,15 @@ func checkMatrix(c *c19Case) (key, msg string, exp *c19Expect) {
 		if strings.HasSuffix(k, "spurious") {
 			k = "C19/duplicate-spurious(subset-mapping)"
 		}
-		return k, m, exp
+		return k, m
 	}
 	if k, m := cmp("exclude-unknown-key", exp.exclKeyAt, got.exclKeyAt); k != "" {
-		return k, m, exp
+		return k, m
 	}
 	if k, m := cmp("exclude-value", exp.exclValAt, got.exclValAt); k != "" {
-		return k, m, exp
+		return k, m
 	}
-	return "", "", exp
+	return "", ""
 }
 
 func keysOf(m map[string]bool) []string {
@@ -442,6 +487,15 @@ func init() {
 		}
 		if k, m, _ := checkMatrix(&c); k != "" {
 			r.Report(k, m, "C19/matrix", &c)
+		}
+	})
+	hx.RegisterReplayer("C19/jobs", func(r *hx.Run, data json.RawMessage) {
+		var cs []*c19Case
+		if err := json.Unmarshal(data, &cs); err != nil {
+			panic(err)
+		}
+		if k, m, _ := checkJobs(cs); k != "" {
+			r.Report(k, m, "C19/jobs", cs)
 		}
 	})
 	hx.RegisterReplayer("C19/permutation", func(r *hx.Run, data json.RawMessage) {
@@ -751,7 +805,7 @@ func c19permute(t *rapid.T, c *c19Case) *c19Case {
 
 func TestC19(t *testing.T) {
 	hx.Main(t, "C19", func(r *hx.Run) {
-		r.Rule = "matrices as value trees (scalars, sequences, mappings nested to depth 3, drawn from a small pool and derived from each other by keeping/dropping/adding/changing/permuting members so that equal and subset-related values are frequent), include/exclude entries derived from row values, some rows/entries/sections given by expressions; each matrix is also re-rendered under a random permutation of rows, values, members and entries. Oracle: reference model (deep equality for duplicates; subset/element-wise/equality containment for exclude against row values + include assignments), exact report positions from the emitter; counts invariant under permutation. Non-trivial = matrix with a pair of equal or subset-related structured values or a literal exclude entry; distinct = YAML text."
+		r.Rule = "matrices as value trees (scalars, sequences, mappings nested to depth 3, drawn from a small pool and derived from each other by keeping/dropping/adding/changing/permuting members so that equal and subset-related values are frequent), include/exclude entries derived from row values, some rows/entries/sections given by expressions; each matrix is also re-rendered under a random permutation of rows, values, members and entries. Oracle: reference model (deep equality for duplicates; subset/element-wise/equality containment for exclude against row values + include assignments), exact report positions from the emitter; counts invariant under permutation; 2-3 generated matrices are also rendered as jobs of ONE workflow and every job must get exactly the reports it gets alone. Non-trivial = matrix with a pair of equal or subset-related structured values or a literal exclude entry; distinct = YAML text."
 		r.Assumptions = []string{"scalars are plain and distinct spellings are distinct values", "identical expression scalars repeated in one row are not generated (textual duplicates)", "exclude checking is skipped entirely when include contains an expression (documented give-up)"}
 		r.Check(t, "matrices", hx.N(6000, 120000), func(rt *rapid.T) {
 			c := c19gen(rt)
@@ -776,6 +830,35 @@ func TestC19(t *testing.T) {
 			}
 			if k, m, _ := checkMatrix(p); k != "" {
 				r.Fail(rt, k, m, "C19/matrix", p)
+			}
+		})
+		// several jobs in one workflow, each with its own matrix over the same row names: the reports
+		// of a job do not depend on the jobs before or after it
+		r.Check(t, "several-jobs", hx.N(3000, 60000), func(rt *rapid.T) {
+			n := rapid.IntRange(2, 3).Draw(rt, "njobs")
+			var cs []*c19Case
+			for i := 0; i < n; i++ {
+				cs = append(cs, c19gen(rt))
+			}
+			k, m, exp := checkJobs(cs)
+			r.Eval()
+			src, _ := c19BuildJobs(cs, cs[0].Indent)
+			exprRowBefore := false
+			for i, c := range cs {
+				for _, row := range c.Rows {
+					if row.Expr != "" && i < n-1 {
+						exprRowBefore = true
+					}
+				}
+			}
+			if exp.nontrivial && exprRowBefore {
+				r.NT(src)
+				r.Class("several-jobs/expression-row-in-an-earlier-job")
+			}
+			r.Class(fmt.Sprintf("several-jobs/%d", n))
+			r.Sample(src)
+			if k != "" {
+				r.Fail(rt, k, m, "C19/jobs", cs)
 			}
 		})
 	})
